@@ -134,4 +134,4 @@ mod test {
 
 #[cfg(kani)]
 #[path = "/verif/kani/utils.rs"]
-mod verif_kani;
+pub(crate) mod verif_kani;
